@@ -7,7 +7,7 @@
 //   W(obj) = x; W(obj) += y; W(obj) *= z   -- after each step the whole object is read back
 // through the raw storage and through every accessor (const and non-const) and compared with
 // the plain array on which the same assignment was made; the declared result type of the
-// accessor must be an lvalue reference (checked at run time: a violation, not a build error).
+// accessor (T& / T const&) is recorded as an info counter only: the verdict is the behaviour.
 #pragma once
 #include "C14_common.hpp"
 #include "C14_scalar.hpp"
@@ -225,8 +225,12 @@ template <class T, sz R, sz C, class Holder> void matrix_write_access()
     vrt::nontrivial(R * C > 1);
     vrt::maybe_sample();
     Holder h(base);
-    C14_TRUE(e.is_ref, sg + ":result_type", "the accessor does not return T& on a non-const object");
-    C14_TRUE(e.is_cref, sg + ":result_type:const", "the accessor does not return T const& on a const object");
+    // the exact result type is a typedef detail (a proxy reference with working writes would be as good): recorded only;
+    // what is judged is the behaviour -- the write arrives (":assign"/":compound") and reads agree
+    if (!e.is_ref)
+      vrt::count("info:" + sg + ":result_type");
+    if (!e.is_cref)
+      vrt::count("info:" + sg + ":result_type:const");
     std::vector<T> want = base;
     sz const at = e.r * C + e.c;
     read_back_matrix(table, C, h.m(), want, sg, "before any write");
@@ -255,9 +259,9 @@ template <class T, sz R, sz C, class Holder> void matrix_write_access()
       return;
     vrt::nontrivial(true);
     Holder h(base);
-    C14_TRUE((std::is_same_v<decltype(fm::at_r<r>(h.m())), typename M::reference>), sg + ":result_type", "at_r does not return matrix::reference");
-    C14_TRUE((std::is_same_v<decltype(fm::at_r<r>(std::declval<M const &>())), typename M::const_reference>), sg + ":result_type:const",
-             "at_r does not return matrix::const_reference on a const object");
+    if (!std::is_same_v<decltype(fm::at_r<r>(h.m())), typename M::reference> ||
+        !std::is_same_v<decltype(fm::at_r<r>(std::declval<M const &>())), typename M::const_reference>)
+      vrt::count("info:" + sg + ":result_type"); // typedef equality is recorded, not judged
     fv::static_<T, C> nv{fcppt::no_init{}};
     for (sz c = 0; c < C; ++c)
       nv.storage()[c] = tr::mark(200 + c);
@@ -446,8 +450,12 @@ template <bool IsVector, class T, sz N, class Holder> void vd_write_access()
     vrt::nontrivial(N > 1);
     vrt::maybe_sample();
     Holder h(base);
-    C14_TRUE(e.is_ref, sg + ":result_type", "the accessor does not return T& on a non-const object");
-    C14_TRUE(e.is_cref, sg + ":result_type:const", "the accessor does not return T const& on a const object");
+    // the exact result type is a typedef detail (a proxy reference with working writes would be as good): recorded only;
+    // what is judged is the behaviour -- the write arrives (":assign"/":compound") and reads agree
+    if (!e.is_ref)
+      vrt::count("info:" + sg + ":result_type");
+    if (!e.is_cref)
+      vrt::count("info:" + sg + ":result_type:const");
     std::vector<T> want = base;
     read_back_vd(table, h.v(), want, sg, "before any write");
     e.apply(h.v(), 0, tr::mark(77));
